@@ -78,6 +78,17 @@ def requirement_holds(P, b, req):
     kind, _, rest = req.partition(':')
     if kind == 'call':
         return any(call_matches(t, rest) for x in bodies for pos, t in x.iter_calls())
+    if kind == 'noloop-after':
+        # after every call matching <rx> the enclosing loop is left (the function returns / breaks): the loop head is not reachable again
+        ok_any = False
+        for x in bodies:
+            for pos, t in x.iter_calls():
+                if call_matches(t, rest):
+                    ok_any = True
+                    for h, body in x.natural_loops():
+                        if pos[0] in body and (h, 0) in x.reach_from(pos):
+                            return False
+        return ok_any
     if kind == 'cmp':
         op, _, var = rest.partition(':')
         var, _, const = var.partition(':')
